@@ -115,11 +115,27 @@ Proof.
   rewrite A1, A2, A3, A4, !bytes_eqb_refl, Bool.eqb_reflx. reflexivity.
 Qed.
 
+Lemma spec_ids_from_model : forall tf sf o,
+  (forall c, o = Some c -> decode_id 16 tf = Some (c_tid c) /\ decode_id 8 sf = Some (c_sid c)) ->
+  spec_ids_from tf sf (option_map obs_of o) = [].
+Proof.
+  intros tf sf o H. destruct o as [c|]; [|reflexivity].
+  destruct (H c eq_refl) as [Dt Ds].
+  pose proof (decode_id_len 16 tf _ Dt) as Lt. pose proof (decode_id_len 8 sf _ Ds) as Ls.
+  cbn [option_map spec_ids_from obs_of o_tid o_sid].
+  destruct (Nat.ltb_spec 32 (length tf)) as [C|_]; [lia|].
+  destruct (Nat.ltb_spec 16 (length sf)) as [C|_]; [lia|]. cbn [orb].
+  rewrite Dt, Ds, !bytes_eqb_refl. reflexivity.
+Qed.
+
 Lemma model_meets_spec_b3_lemma : forall b3 xt xs xf,
   spec_b3_extract b3 xt xs xf (option_map obs_of (b3_extract b3 xt xs xf)) true = [].
 Proof.
   intros. unfold spec_b3_extract.
   rewrite (spec_total_model _ (b3_extract_total b3 xt xs xf)).
+  pose proof (fun c => b3_extract_ids_lemma b3 xt xs xf c) as I.
+  destruct (b3_id_fields b3 xt xs) as [tf sf]. cbn [fst snd] in I.
+  rewrite (spec_ids_from_model tf sf _ I).
   rewrite spec_accepts_model; [reflexivity|]. intros tid sid b ft D. exact (doc_b3_sound _ _ _ _ _ _ _ _ D).
 Qed.
 
@@ -128,6 +144,9 @@ Lemma model_meets_spec_jaeger_lemma : forall h,
 Proof.
   intros. unfold spec_jaeger_extract.
   rewrite (spec_total_model _ (jaeger_extract_total h)).
+  pose proof (fun c => jaeger_extract_ids_lemma h c) as I.
+  destruct (id_fields colon h) as [tf sf]. cbn [fst snd] in I.
+  rewrite (spec_ids_from_model tf sf _ I).
   rewrite spec_accepts_model; [reflexivity|]. intros tid sid b ft D. exact (doc_jaeger_sound _ _ _ _ _ D).
 Qed.
 
